@@ -166,10 +166,9 @@ Proof.
   { rewrite <- (firstn_skipn start l) in Hs. apply ksorted_app_inv in Hs. tauto. }
   rewrite del_walk_spec by assumption. f_equal.
   symmetry. apply filter_all. intros x Hin.
-  destruct l as [|x0 l0] eqn:El; [rewrite firstn_nil in Hin; destruct Hin|]. rewrite <- El in *.
-  assert (Hne : l <> []) by (rewrite El; discriminate).
+  assert (Hne : l <> []) by (intro E0; rewrite E0, firstn_nil in Hin; destruct Hin).
   destruct (in_firstn_nth dk _ _ _ Hin) as [p [Hp [_ Hnth]]].
-  destruct (search_offset_pos l (hd [] sk) Hs Hne) as [_ [HL _]]. unfold start in Hp. specialize (HL p Hp).
+  destruct (search_offset_pos l (hd [] sk) Hs Hne) as [_ [HL _]]. specialize (HL p Hp).
   rewrite nth_key_eq, Hnth in HL.
   unfold keep. destruct sk as [|s0 sr] eqn:Esk; [reflexivity|]. cbn [hd] in HL.
   rewrite (kmem_above _ _ _ Hsk HL). reflexivity.
